@@ -146,12 +146,12 @@ def run(seed, tier, lean) -> Result:
                     if a['name'] is None: a['name'] = f"{a['type']}:{a['id']}"
     model = None
     if lean['build_ok']:
-        model = run_driver([{'op': 'gen', 'case': i, 'lang': lang_payload(s), 'inst': inst_payload(m)} for i, (s, m) in enumerate(cases)])
+        model = run_driver([{'op': 'gen', 'case': i, 'lang': lang_payload(s), 'inst': inst_payload(m)} for i, (s, m) in enumerate(cases)], case_limit=30)
     third = []          # the cases for the third column (the GENERATED code), run after the real code
     for i, (spec, inst) in enumerate(cases):
         res.evaluations += 1
         mo = model[i].get('model') if model is not None else None
-        if model is not None and mo is None:
+        if model is not None and mo is None and 'skipped' not in model[i]:
             res.violations.append(Violation(what='driver rejected a case', fingerprint='C02:driver-error', replay={'spec': spec, 'inst': inst}, no_failing_input=True)); continue
         # a third of the cases: model built larger, one generation, extras removed through the API, then the generation
         # that is checked (what an earlier generation cached must not survive the removals)
